@@ -1624,9 +1624,9 @@ class AVCConfigurationBox(Mp4Atom):
         end = rv["position"] + rv["size"]
         if clz.is_ext_profile(rv["AVCProfileIndication"]) and (end - src.tell()) > 3:
             r.read('B', 'chroma_format', mask=0x03)
-            r.read('B', 'luma_bit_depth', mask=0x03)
+            r.read('B', 'luma_bit_depth', mask=0x07)
             rv["luma_bit_depth"] += 8
-            r.read('B', 'chroma_bit_depth', mask=0x03)
+            r.read('B', 'chroma_bit_depth', mask=0x07)
             rv["chroma_bit_depth"] += 8
             numOfSequenceParameterSetExtensions = r.get(
                 'B', 'numOfSequenceParameterSetExtensions')
